@@ -690,9 +690,18 @@ class NetstringSocket:
 
         if size > maxsize:
             raise NetstringMessageTooLong(size, maxsize)
-        payload = self.bsock.recv_size(size)
-        if self.bsock.recv(1) != b',':
-            raise NetstringProtocolError("expected trailing ',' after message")
+        consumed = size_prefix + b':'
+        try:
+            payload = self.bsock.recv_size(size)
+            consumed += payload
+            if self.bsock.recv(1) != b',':
+                raise NetstringProtocolError("expected trailing ',' after"
+                                             " message")
+        except Timeout:
+            # put the partially read message back, so read_ns can be retried
+            with self.bsock._recv_lock:
+                self.bsock.rbuf = consumed + self.bsock.rbuf
+            raise
 
         return payload
 
